@@ -91,6 +91,12 @@ KIND_RES = [
     ("LenDup", re.compile(r"^Duplicate LengthOfField declaration$")),
     ("DupMatchKey", re.compile(r"^Duplicate match key: ")),
     ("UnexpectedField", re.compile(r"^Unexpected field definition type$")),
+    ("UnknownMeta", re.compile(r"^Unknown metadata type [A-Za-z_0-9]+ for ")),
+    ("PadNotFixed", re.compile(r"^Padding attribute can only be declared on a fixed string field: ")),
+    ("AttrOnObject", re.compile(r"^Attribute @(lengthOf|calculatedFrom) is not allowed on object field ")),
+    ("UnknownLenTarget", re.compile(r"^Unknown length target [A-Za-z_0-9]+ for field ")),
+    ("UnknownMatchKey", re.compile(r"^Unknown match key field [A-Za-z_0-9]+ for field ")),
+    ("DupField", re.compile(r"^Duplicate field definition for [A-Za-z_0-9]+ in packet ")),
 ]
 
 
@@ -265,57 +271,40 @@ SITE_SHORT = {
 }
 
 KNOWN = {
-    # ---- C11: panic sites of the visitor (one witness each in coq/Proofs/VisitorProofs.v: panic_*_reachable)
-    "C11:panic:VisitFieldDefinitionWithAttribute":
-        "padding attribute on a field whose Attr is not a fixed string (unchecked type assertion, packet_dsl_parser.go:230)",
-    "C11:panic:Field.GetType":
-        "@lengthOf/@calculatedFrom written before an object field (nil RefPacket) or a field of a nil-Attr MetaData entry "
-        "(model.go:458/462 called from packet_dsl_parser.go:216/220)",
-    "C11:panic:VisitLengthFieldDeclaration":
-        "length field named like a MetaData entry whose Attr is nil (ref-declaration of an undeclared type), packet_dsl_parser.go:317",
-    "C11:panic:VisitCheckSumFieldDeclaration":
-        "checksum field named like a MetaData entry whose Attr is nil, packet_dsl_parser.go:345",
-    "C11:panic:VisitPacketDefinition":
-        "undeclared @lengthOf target in the root packet and a field after the length field: nil TragetField dereferenced, "
-        "packet_dsl_parser.go:172 (after :184-187 replaced the attribute)",
-    # ---- C12: fault classes the visitor never diagnoses
-    "C12:DupField:missed*": "duplicate field names are not checked; FieldMap keeps the last one (packet_dsl_parser.go:163)",
-    "C12:DupMatchKey:missed*": "the duplicate-key check reads pairsMap, which is never written (packet_dsl_parser.go:444-455)",
-    "C12:UndeclaredMatchKey:missed*": "fieldMap lookup of the match key is not checked: MatchKeyField becomes nil (packet_dsl_parser.go:189); "
-                                      "inside inline objects it is not even looked up",
-    "C12:UndeclaredLenTarget:missed*": "fieldMap lookup of the length target is not checked: TragetField becomes nil (packet_dsl_parser.go:184-187)",
     # ---- C12: classes diagnosed only in some positions
+    "C12:DupField:missed-rejected": "a field that repeats the name of a length-of field which was itself refused (outside the root packet, or a "
+                                    "second one) is not reported: the refused field never enters the field map (packet_dsl_parser.go, first loop of "
+                                    "VisitPacketDefinition)",
+    "C12:UndeclaredLenTarget:missed*": "the target of a length-of field is only looked up for THE length field of a root packet: not for a length-of "
+                                       "field that is refused (outside the root, second one, @lengthOf refused before an object field) and not inside "
+                                       "inline objects (VisitInerObjectField checks nothing about length-of fields)",
+    "C12:UndeclaredMatchKey:missed*": "@lengthOf / @calculatedFrom written before a match field replace its match attribute (Field.GetType answers "
+                                      "\"match\"): the field is no match field any more when the key is looked up",
     "C12:LenOutsideRoot:missed*": "length-of fields inside inline objects are not checked (VisitInerObjectField); at top level a later "
-                                  "@calculatedFrom replaces the length attribute before the check (packet_dsl_parser.go:140)",
-    "C12:SecondLen:missed*": "a later @calculatedFrom on the same field replaces the length attribute before the check",
-    "C12:UndeclaredPacket:missed*": "match pair values and object fields inside inline objects are never resolved (ResolveDependencies walks "
-                                    "packet.Fields of top-level packets only, model.go:170-171); fields of a rejected duplicate packet are not resolved",
-    "C12:UndeclaredPacket:wrong-line": "the diagnostic carries the line of the fieldDefinition, not of the first prefixed attribute (model.go:178)",
-    "C12:DupOption:missed-rejected": "AddOption returns after 'not allowed in this context' (model.go:218): a repeated unknown option is only "
+                                  "@calculatedFrom replaces the length attribute before the check, and @lengthOf before an object field is refused as "
+                                  "an attribute only (packet_dsl_parser.go, VisitPacketDefinition / VisitFieldDefinitionWithAttribute)",
+    "C12:SecondLen:missed*": "a later @calculatedFrom on the same field replaces the length attribute before the check; @lengthOf before an object "
+                             "field is refused as an attribute only",
+    "C12:UndeclaredPacket:missed*": "the fields of a packet that is rejected as a duplicate are not resolved (ResolveDependencies walks m.Packets only); the pairs of a "
+                                    "match field whose attribute was replaced by @lengthOf / @calculatedFrom are gone",
+    "C12:UndeclaredPacket:wrong-line": "the diagnostic carries the line of the fieldDefinition, not of the first prefixed attribute (model.go, "
+                                       "resolveFields: field.Line); for a key list that starts on a later line than its bracket, the lines of the keys",
+    "C12:DupOption:missed-rejected": "AddOption returns after 'not allowed in this context' (model.go AddOption): a repeated unknown option is only "
                                      "reported as unknown",
-    "C12:SecondRoot:missed-rejected": "AddPacket returns after 'Duplicate packet definition' (model.go:241): a second root that is also a "
+    "C12:SecondRoot:missed-rejected": "AddPacket returns after 'Duplicate packet definition' (model.go AddPacket): a second root that is also a "
                                       "duplicate is only reported as duplicate",
-    "C12:IllegalOptionValue:missed*": "a quoted value is stripped of its quotes before the check (packet_dsl_parser.go:103-105): \"u16\", \"true\" pass",
-    # ---- C12: well-formed programs that are rejected
-    "C12:false-positive:OptValue:padchar-nul": "FixedStringPadChar = '\\x00' as the user has to spell it (6 characters) is compared with the "
-                                               "3-byte string quote-NUL-quote (model.go:81): the documented value is always rejected",
-    "C12:false-positive:OptValue:alias": "StringPrefixLenType/ArrayPrefixLenType = uint8..uint64: the alias spellings are not in the table (model.go:74-75)",
-    # ---- C12: faults masked by a panic
-    "C12:*:panic:*": "the visitor panics before / instead of reporting (see the C11 sites)",
-    "C12:no-fault-class:panic:*": "attribute misuse (padding on a non-fixed-string, @lengthOf/@calculatedFrom before an object field) and "
-                                  "ref-declarations of undeclared MetaData types are not diagnosed; they panic",
+    "C12:IllegalOptionValue:missed*": "a quoted value is stripped of its quotes before the check (packet_dsl_parser.go VisitPacket): \"u16\", \"true\" pass",
     # ---- C08
-    "C08:alias_long_opts:rejected": "option values uint8..uint64 are rejected (see C12:false-positive:OptValue:alias)",
     "C08:default_options:outputs-differ:*": "FixedStringPadFromLeft = true without FixedStringPadChar: NewConfiguration takes the pad character from the Go "
-                             "literal \" \" (the bare blank, model.go:142) where the option value and the built-in default are the token text "
+                             "literal \" \" (the bare blank, model.go NewConfiguration) where the option value and the built-in default are the token text "
                              "quote-blank-quote: 'explicit default options versus none' changes Config.Padding.PadChar; Rust/Go/Java emit "
                              "'..., 4,  , true)' (no character literal at all) without the explicit option",
     "C08:default_options:model-differs-outputs-same": "as C08:default_options:outputs-differ (the models differ, the six outputs happen to coincide for this program)",
-    "C08:expand_keys:outputs-differ:*": "VisitMatchPair collects the DIGITS keys of a list before its STRING keys (packet_dsl_parser.go:476-481): a list that "
+    "C08:expand_keys:outputs-differ:*": "VisitMatchPair collects the DIGITS keys of a list before its STRING keys (packet_dsl_parser.go VisitMatchPair): a list that "
                          "mixes both kinds is not its pairs in source order (the registration order in the generated factories changes)",
     "C08:expand_keys:model-differs-outputs-same": "as C08:expand_keys:outputs-differ (the models differ, the six outputs happen to coincide for this program)",
     "C08:attr-leak:shared-metadata-fixed": "a padding attribute on a MetaData-typed fixed string writes the FixedStringFieldAttribute shared by "
-                                           "the MetaData entry, its aliases and every field of that type (packet_dsl_parser.go:230, :259)",
+                                           "the MetaData entry, its aliases and every field of that type (packet_dsl_parser.go, padding attribute / ObjectField)",
     "C08:inline_meta:outputs-differ:*": "a MetaData-typed fixed string shares its attribute object, so a padding attribute on one field pads all of them; "
                          "the inlined spelling pads only the field it is written on",
     "C08:inline_meta:model-differs-outputs-same": "as C08:inline_meta:outputs-differ (the models differ, the six outputs happen to coincide for this program)",
@@ -329,9 +318,16 @@ def is_known(dev):
     return any(dev == k or fnmatch.fnmatchcase(dev, k) for k in KNOWN)
 
 
-FAULT_TO_DIAG = {"DupPacket": "DupPacket", "DupMeta": "DupMeta", "DupOption": "OptDup", "DupField": None, "DupMatchKey": "DupMatchKey",
+FAULT_TO_DIAG = {"DupPacket": "DupPacket", "DupMeta": "DupMeta", "DupOption": "OptDup", "DupField": "DupField", "DupMatchKey": "DupMatchKey",
                  "SecondRoot": "MultiRoot", "UnknownOption": "OptUnknown", "IllegalOptionValue": "OptValue", "LenOutsideRoot": "LenNotRoot",
-                 "SecondLen": "LenDup", "UndeclaredPacket": "UnknownPacket", "UndeclaredMatchKey": None, "UndeclaredLenTarget": None}
+                 "SecondLen": "LenDup", "UndeclaredPacket": "UnknownPacket", "UndeclaredMatchKey": "UnknownMatchKey",
+                 "UndeclaredLenTarget": "UnknownLenTarget"}
+
+# diagnostics of misuse that the 13 fault classes do not cover (a padding attribute on a field that is no fixed string,
+# @lengthOf/@calculatedFrom before an object field, a ref-declaration of an undeclared MetaData type): a program that
+# draws one of them does not use "only documented constructs", so the diagnostic is not a false positive
+MISUSE_KINDS = {"PadNotFixed", "AttrOnObject", "UnknownMeta"}
+WRONG_LINE_KINDS = {"UndeclaredPacket"}
 
 ALIAS_VALUES = {"uint8", "uint16", "uint32", "uint64"}
 
@@ -364,35 +360,39 @@ def classify_c12(spec, resp):
         return devs
     real = [(e.get("kind") or msg_kind(e["msg"]), e["line"], e["msg"]) for e in resp["model"]["errors"]]
     rejected = bool(real)
-    left = list(real)
+    # a fault is answered when SOME diagnostic of its class sits on its line (several faults on one line, or one
+    # diagnostic per key of a key list, change nothing)
+    answered = set((k, l) for k, l, _ in real)
+    used = set()
     unmatched = []
     for k, l in spec:
         want = FAULT_TO_DIAG[k]
-        hit = next((x for x in left if x[0] == want and x[1] == l), None)
-        if hit is not None:
-            left.remove(hit)
+        if (want, l) in answered:
+            used.add((want, l))
         else:
             unmatched.append((k, l))
+    spare = [x for x in real if (x[0], x[1]) not in used]
     for k, l in unmatched:
         want = FAULT_TO_DIAG[k]
-        hit = next((x for x in left if x[0] == want), None)
+        # a displaced diagnostic: only where the code takes the line from another token than the specification does
+        # (resolveFields: field.Line / pair.Line); elsewhere an unanswered fault is a missed one, whatever else is reported
+        hit = next((x for x in spare if x[0] == want), None) if k in WRONG_LINE_KINDS else None
         if hit is not None:
-            left.remove(hit)
+            spare = [x for x in spare if (x[0], x[1]) != (hit[0], hit[1])]
             devs.append("C12:%s:wrong-line" % k)
         else:
             devs.append("C12:%s:%s" % (k, "missed-rejected" if rejected else "missed-accepted"))
-    for kind, line, msg in left:
-        sub = ""
-        if kind == "OptValue":
-            m = re.match(r"^Option (\w+) is not allowed to be (.*), Expected one of:", msg, re.S)
-            val = m.group(2) if m else ""
-            if val == "'\\x00'":
-                sub = ":padchar-nul"
-            elif val in ALIAS_VALUES:
-                sub = ":alias"
-            else:
-                sub = ":other"
-        devs.append("C12:false-positive:%s%s" % (kind, sub))
+    if not spec:
+        # the converse: a well-formed program that uses only documented constructs draws no diagnostic
+        for kind, line, msg in real:
+            if kind in MISUSE_KINDS:
+                continue
+            sub = ""
+            if kind == "OptValue":
+                m = re.match(r"^Option (\w+) is not allowed to be (.*), Expected one of:", msg, re.S)
+                val = m.group(2) if m else ""
+                sub = ":" + ("padchar-nul" if val in ("'\\x00'", "'\x00'") else "alias" if val in ALIAS_VALUES else "other")
+            devs.append("C12:false-positive:%s%s" % (kind, sub))
     return devs
 
 
@@ -447,6 +447,17 @@ WITNESSES = [
     "packet A { " + "G { " * 60 + "u8 x, G { char[2] y, }, " + "}, " * 60 + "}",
     "packet A { " + "".join("u8 f%d, " % i for i in range(400)) + "}",
     "packet B { } packet A { u8 k, match k as m { " + "".join("%d : B, " % i for i in range(300)) + "}, }",
+    "packet A { u16 x @lengthOf(y), u8 x, u8 y, }",
+    "packet B { } packet A { @calculatedFrom(\"c\") match nokey as m { 1 : B, 2 : Nowhere }, }",
+    "packet A { u16 l @lengthOf(nowhere), }",
+    "packet B { } packet A { @lengthOf(x) B b, u8 x, }",
+    "packet A { u8 k, match k as n { [\n1, 2] : Nowhere }, }",
+    "options { FixedStringPadChar = '\\x00'; } root packet A { char[4] x, }",
+    "options { StringPrefixLenType = uint8; ArrayPrefixLenType = uint64; } root packet A { string s, repeat u8 xs, }",
+    "options { StringPrefixLenType = int16; LittleEndian = u8; JavaPackage = uint32; }",
+    "packet A { G { u8 x, u16 x, match nokey as m { 1 : A, 1 : Nowhere }, H { Nowhere2 q, A a, }, }, }",
+    "MetaData M { Nowhere y, u8 y, } packet A { y, @leftPad() y z, @lengthOf(q) y w, }",
+    "root packet A { @tag(1)\n@lengthOf(nowhere)\n u16 l, @tag(2)\n match nokey as m { 1 : A }, }",
     "",
     "// nothing",
 ]
@@ -756,7 +767,7 @@ def main():
     import random
     import vprogs
     tm = core.Timer()
-    core.build_binaries(want_cli=False)
+    core.build_binaries()
     if not a.no_make:
         ok, out = core.coq_make()
         if not ok:
